@@ -155,9 +155,11 @@ func dummyMultipartFile(genpkg string, root *expr.RootExpr, svc *expr.HTTPServic
 			{Path: "mime/multipart"},
 		}
 		data := HTTPServices.Get(svc.Name())
+		// the payload types are referenced through the service package name
+		// (already accounted for in scope above)
 		specs = append(specs, &codegen.ImportSpec{
 			Path: path.Join(genpkg, data.Service.PathName),
-			Name: scope.Unique(data.Service.PkgName, "svc"),
+			Name: data.Service.PkgName,
 		})
 
 		apiPkg := scope.Unique(strings.ToLower(codegen.Goify(root.API.Name, false)), "api")
